@@ -199,7 +199,14 @@ fn val_src(v: &Val, ch: &mut Chooser, out: &mut String, gaps: &mut Vec<usize>) {
     }
     match v {
         Val::Int(n) => out.push_str(&n.to_string()),
-        Val::Dec(s) => out.push_str(s),
+        Val::Dec(s) => {
+            // `0.25` may be written `.25`
+            if s.starts_with("0.") && ch.pick(2) == 1 {
+                out.push_str(&s[1..]);
+            } else {
+                out.push_str(s);
+            }
+        }
         Val::Frac(a, b) => {
             let pad = ch.pick(2) == 1;
             put(&if pad { format!("{a} / {b}") } else { format!("{a}/{b}") }, out, gaps);
@@ -318,17 +325,20 @@ fn comp_src(c: &Comp, cfg: Config, ch: &mut Chooser, out: &mut String, gaps: &mu
     }
 }
 
-fn text_src(t: &str, ch: &mut Chooser, out: &mut String, gaps: &mut Vec<usize>, allow_break: bool) {
+/// `followed`: another item of the same step follows this text (then a trailing blank may be spelled as a line break)
+fn text_src(t: &str, ch: &mut Chooser, out: &mut String, gaps: &mut Vec<usize>, allow_break: bool, followed: bool) {
     // words separated by single spaces; a space may be spelled as a line break,
     // a word's first character may be spelled with a backslash
     let mut first = true;
     let mut prev = "";
-    for w in t.split(' ') {
+    let nwords = t.split(' ').count();
+    for (wi, w) in t.split(' ').enumerate() {
         if !first {
             // never break before a word that would start a new kind of line, nor right after a
             // stray marker (a marker followed by a line break instead of a blank is diagnosed)
             let after_marker = prev.ends_with(['@', '#', '~', '-', '+', '?', '&']);
-            let risky = after_marker || w.is_empty() || w.starts_with('>') || w.starts_with('=') || w.starts_with('-');
+            let wrap_before_item = w.is_empty() && wi + 1 == nwords && followed;
+            let risky = after_marker || (w.is_empty() && !wrap_before_item) || w.starts_with('>') || w.starts_with('=') || w.starts_with('-');
             if allow_break && !risky && !out.is_empty() && !out.ends_with('\n') && ch.pick(2) == 1 {
                 out.push('\n');
             } else {
@@ -446,13 +456,13 @@ pub fn print(r: &Recipe, cfg: Config, ch: &mut Chooser) -> Printed {
                     if li == 0 || ch.pick(2) == 0 {
                         out.push_str("> ");
                     }
-                    text_src(l, ch, &mut out, &mut p.gaps, false);
+                    text_src(l, ch, &mut out, &mut p.gaps, false, false);
                 }
             }
             Block::Step(items) => {
                 for (ii, it) in items.iter().enumerate() {
                     match it {
-                        Item::Text(t) => text_src(t, ch, &mut out, &mut p.gaps, true),
+                        Item::Text(t) => text_src(t, ch, &mut out, &mut p.gaps, true, ii + 1 < items.len()),
                         Item::InlineQ(n, u) => {
                             out.push_str(n);
                             out.push(' ');
